@@ -72,6 +72,14 @@ func (self *StreamDecoder) Decode(val interface{}) (err error) {
 	}
 	if _, perr := self.peek(); perr == nil {
 		var s = self.scanp
+		if c := self.buf[s]; c == '-' || (c >= '0' && c <= '9') {
+			// a number is not self-delimiting and is framed separately
+			if err = self.decodeNumber(s, val); err != nil {
+				return err
+			}
+			self.consume()
+			return self.err
+		}
 	try_skip:
 		var e = len(self.buf)
 		var src = rt.Mem2Str(self.buf[s:e])
@@ -104,23 +112,65 @@ func (self *StreamDecoder) Decode(val interface{}) (err error) {
 		}
 
 		self.scanp = e
-		_, empty := self.scan()
-		if empty {
-			// no remain valid bytes, thus we just recycle buffer
-			mem := self.buf
-			self.buf = nil
-			freeBytes(mem)
-		} else {
-			// remain undecoded bytes, move them onto head
-			n := copy(self.buf, self.buf[self.scanp:])
-			self.buf = self.buf[:n]
-		}
-
-		self.scanned += int64(self.scanp)
-		self.scanp = 0
+		self.consume()
 	}
 
 	return self.err
+}
+
+// consume drops the bytes before scanp (and the white space after them) from the buffer.
+func (self *StreamDecoder) consume() {
+	_, empty := self.scan()
+	if empty {
+		// no remain valid bytes, thus we just recycle buffer
+		mem := self.buf
+		self.buf = nil
+		freeBytes(mem)
+	} else {
+		// remain undecoded bytes, move them onto head
+		n := copy(self.buf, self.buf[self.scanp:])
+		self.buf = self.buf[:n]
+	}
+
+	self.scanned += int64(self.scanp)
+	self.scanp = 0
+}
+
+func isNumberByte(c byte) bool {
+	return (c >= '0' && c <= '9') || c == '.' || c == 'e' || c == 'E' || c == '+' || c == '-'
+}
+
+// decodeNumber decodes the top-level number starting at buf[s]. It first waits for a byte that cannot
+// continue the number, or for the end of the stream, so that the result does not depend on how the
+// reader cuts the bytes; the decoder then tells how many of the framed bytes form the value.
+func (self *StreamDecoder) decodeNumber(s int, val interface{}) error {
+	i := s + 1
+	for {
+		for i < len(self.buf) && isNumberByte(self.buf[i]) {
+			i++
+		}
+		if i < len(self.buf) {
+			break
+		}
+		l := len(self.buf)
+		realloc(&self.buf)
+		n, rerr := self.r.Read(self.buf[l:cap(self.buf)])
+		self.buf = self.buf[:l+n]
+		if rerr != nil && n == 0 {
+			if rerr == io.EOF {
+				break // the number ends with the stream
+			}
+			self.setErr(rerr)
+			return rerr
+		}
+	}
+	self.Decoder.Reset(string(self.buf[s:i]))
+	if err := self.Decoder.Decode(val); err != nil {
+		self.setErr(err)
+		return err
+	}
+	self.scanp = s + self.Decoder.Pos()
+	return nil
 }
 
 // InputOffset returns the input stream byte offset of the current decoder position.
